@@ -90,3 +90,81 @@ def _b(repo):
             raise KeyError("binding instruction " + must)
     xs = sorted(out)
     return xs, lean_list("c18BindingInstructions", xs)
+
+
+# ---------------------------------------------------------------------------- who asks the context
+READER_PATTERNS = [
+    r"\.\s*lookup\s*\(",                 # State::lookup (= Context::load)
+    r"\.\s*load\s*\(",                   # Context::load (atomics filtered out below)
+    r"\bctx\s*\.\s*get_attr_fast\s*\(",  # the context object itself, by key
+    r"\bctx\s*\.\s*(?:get_item|get_attr|get_item_opt|get_item_by_index|try_iter)\s*\(",
+    r"\.\s*known_variables\s*\(",        # enumerates the context
+    r"\.\s*clone_base\s*\(",             # hands the context value on
+    r"\.\s*call_macro\s*\(",             # looks the macro up by name
+]
+SCAN_DIRS = ["minijinja/src", "minijinja-contrib/src"]
+
+
+def _rs_files(repo):
+    import os
+    out = []
+    for d in SCAN_DIRS:
+        for root, _, files in os.walk(os.path.join(repo, d)):
+            for f in files:
+                if f.endswith(".rs"):
+                    out.append(os.path.relpath(os.path.join(root, f), repo))
+    return sorted(out)
+
+
+def _drop_test_modules(src):
+    """cut `#[cfg(test)] mod … { … }` blocks (unit tests are not engine code)"""
+    out, i = [], 0
+    for m in re.finditer(r"#\[cfg\(test\)\]\s*mod\s+\w+\s*\{", src):
+        if m.start() < i:
+            continue
+        depth, j = 0, m.end() - 1
+        while j < len(src):
+            if src[j] == "{":
+                depth += 1
+            elif src[j] == "}":
+                depth -= 1
+                if depth == 0:
+                    break
+            j += 1
+        out.append(src[i:m.start()])
+        i = j + 1
+    out.append(src[i:])
+    return "".join(out)
+
+
+def context_readers(repo):
+    found = set()
+    for rel in _rs_files(repo):
+        src = _drop_test_modules(strip_comments(read(repo, rel)))
+        fns = [(m.start(), m.group(1)) for m in re.finditer(r"\bfn\s+(\w+)\s*[<(]", src)]
+        for pat in READER_PATTERNS:
+            for m in re.finditer(pat, src):
+                stmt_end = src.find(";", m.end())
+                stmt = src[m.start():stmt_end if stmt_end >= 0 else m.end() + 80]
+                if "Ordering::" in stmt[:120]:
+                    continue  # atomic load
+                if re.match(r"\.\s*(lookup|load|known_variables|clone_base|call_macro)\s*\($", src[m.start():m.end()]) \
+                        and re.search(r"\bfn\s+$", src[max(0, m.start() - 4):m.start()]):
+                    continue
+                name = "<top>"
+                for pos, fname in fns:
+                    if pos < m.start():
+                        name = fname
+                    else:
+                        break
+                found.add(f"{rel}::{name}")
+    return sorted(found)
+
+
+@item("C18_CONTEXT_READERS")
+def _r(repo):
+    xs = context_readers(repo)
+    for must in ("minijinja/src/vm/mod.rs::eval_impl", "minijinja/src/vm/context.rs::load"):
+        if must not in xs:
+            raise KeyError("context reader " + must)
+    return xs, lean_list("c18ContextReaders", xs)
